@@ -149,5 +149,97 @@ PROPS["C07"] = {
                     "allocation size; the real code runs on every size in the list above"],
 }
 
+
+def core_prop(pid, driver, nq, nt, rule, explanation, assumptions):
+    PROPS[pid] = {
+        "check_mods": [pid],
+        "model_out": "model_out",
+        "drivers": [{"name": driver, "n_quick": nq, "n_thorough": nt}],
+        "rule": rule + " non-trivial = at least 4 operations and at least one item received by a client; "
+                       "distinct = distinct case term.",
+        "explanation": explanation,
+        "trusted_base": CORE_TRUSTED,
+        "assumptions": assumptions,
+    }
+
+core_prop("C04", "c04core", 480, 16000,
+    "2-5 channels; 4-30 reply-class frames (all 13 -Ok kinds with random fields, ConsumeOk, CancelOk, "
+    "GetEmpty) on random channels, at most two outstanding per channel (the reply queue's capacity), fed "
+    "directly or as read episodes with random cuts; the callers take their replies at random moments.",
+    "C04_routing / C04_bogus / C04_other_channels. Correspondence on the real Inner/ConnectionState and "
+    "the real handles' reply queues; oracle: per reply queue, EXACTLY the reply-class frames of its channel, "
+    "unchanged, in order.",
+    ["this check covers the I/O-thread side (routing); the handle side (call = send, then take the next "
+     "item of the own reply queue, type-check) is exercised end to end by the C12 / C02 drivers"])
+core_prop("C05", "c05core", 480, 16000,
+    "steady state with 0-3 channels, consumers, listeners, traffic, content half received, a request still "
+    "in a mailbox; then one fatal input: EOF / read error / unparsable frame at the end of a read that "
+    "carries a content prefix, a write error (after 0 or 1 bytes), server Connection.Close, a client "
+    "exception, a frame for a channel that is not open; then the thread state is dropped and every queue "
+    "is received from until it reports disconnection.",
+    "C05_fatal_* (error mapping), C05_final_results, C05_releases_slots / C05_releases_ch0 (teardown "
+    "disconnects every queue). Oracle: the outcome names the injected failure; after teardown the last "
+    "receive on every queue the case ever created is Disconnected; no panic.",
+    ["bounded time, thread join and transport release are runtime behaviour (not in this check)",
+     "missed heartbeats: the timer wheel is not driven by this driver (C17 covers the arithmetic)"])
+core_prop("C08", "c08core", 480, 16000,
+    "0-4 channels with consumers and traffic, data queued behind a stalled transport, then a close from "
+    "either side: client (racing requests before and after the close point, frames still arriving, "
+    "CloseOk alone or with EOF in the same read) or server (any code / text, frames after the Close in "
+    "the same read, requests submitted afterwards), flushing with short writes, is_connection_done "
+    "sampled throughout.",
+    "C08_client_close / C08_sealed_drops / C08_server_close / C08_done / C08_close_ok_then_anything / "
+    "C08_write_conserves. Oracle: once sealed, bytes written + bytes buffered never changes again; the "
+    "sealed buffer ends with the Close the client submitted (or CloseOk); is_connection_done is true "
+    "exactly when nothing is left to write; on CloseOk (with or without EOF behind it) the outcome is Ok, "
+    "the connection's reply queue ends with CloseOk, every channel's with ClientClosedConnection, every "
+    "consumer's with ClientClosedConnection; on server close the same with the server's code and text.",
+    ["Connection::close's own return value (join of the thread) is observed end to end by the handshake "
+     "driver, not here"])
+core_prop("C09", "c09", 480, 16000,
+    "2-4 channels with consumers; the victim idle / with a request in its mailbox (handled or still "
+    "pending) / with content half received; the server's Channel.Close(code, text) arrives in a read "
+    "together with replies for other channels before and after it; then a stale wake-up for the victim, "
+    "calls on the old handle, replies on the others, a late CloseOk from the server, and an explicit "
+    "re-open of the id.",
+    "C09_effect / C09_isolation / C09_reusable / C09_stale_wakeup. Oracle: no error anywhere; bytes "
+    "written + buffered grow by exactly the 12 bytes of Channel.CloseOk(n) and the buffer ends with that "
+    "frame; the victim's reply queue ends with ServerClosedChannel(n, code, text) and is disconnected, its "
+    "consumers end with the same; every other channel's reply queue carries exactly its replies; a later "
+    "open of id n is granted.",
+    [])
+core_prop("C11", "c11", 480, 16000,
+    "1-3 channels, consumers with case-unique tags; histories of deliveries, client cancel (request, "
+    "deliveries in between, CancelOk), server cancel (nowait or not, possibly followed by the client's "
+    "own cancel and its CancelOk), channel close from either side, connection close from either side, in "
+    "random order; every queue is read to disconnection.",
+    "C11_client_cancel / C11_server_cancel / C11_nothing_after / C11_deliveries_in_order. Oracle (from the "
+    "frames alone): each consumer queue carried exactly the deliveries addressed to its tag up to its "
+    "terminal event, in order, then exactly the terminal message that event calls for (with the server's "
+    "code and text where there is one), then disconnection.",
+    ["Consumer::cancel idempotence and cancel-on-drop live in src/consumer.rs and are exercised by the "
+     "API-level driver (C12), not here"])
+core_prop("C13", "c13", 480, 16000,
+    "1-3 channels; acks / nacks (tags, multiple flags), returned messages (bodies 0-100 bytes), blocked / "
+    "unblocked notices, interleaved with listener registration, replacement, clearing and receiver drops "
+    "at every point.",
+    "C13_confirm_forwarded / C13_confirm_discarded / C13_dropped_listener / C13_replaced / "
+    "C13_blocked_forwarded. Oracle (its own bookkeeping of who is the current listener, from the "
+    "operations alone): every listener queue carried exactly the events sent while it was current, "
+    "verbatim and in order; a replaced listener's queue is disconnected; no error, no panic.",
+    ["'registered before a publish': registration and publish travel through the same FIFO mailbox "
+     "(Model/Core.chan_readable handles it in order); the client-side ordering is Rust program order"])
+core_prop("C20", "c20", 480, 16000,
+    "1-3 channels; a batch of 2-5 events drawn from {server Connection.Close, server Channel.Close, a frame "
+    "that raises a client exception, allocation request, set-blocked request, channel-0 mailbox (client "
+    "close), mailbox of the affected channel, mailbox of another channel} in every order, all made pending "
+    "before the first is handled; then is_connection_done, flushing, teardown.",
+    "C20_no_panic (every batch), C20_serial (a batch is its events handled one after another), C20_stale. "
+    "The correspondence compares every observation with the model, which handles a batch serially by "
+    "construction; oracle: no panic, no failed assertion, only benign errors, ServerClosing from the "
+    "moment the server's close was processed, done exactly when flushed.",
+    ["mio puts the events of one poll into one batch in an order the harness cannot force on the real "
+     "poll; the probe calls the real handle_steady_event with hand-made events in the order wanted"])
+
 # properties not claimed, with the reason (kept current)
 NOT_APPLICABLE = {}
